@@ -223,6 +223,10 @@ func c08(c *core.Ctx) {
 		if n < 2 {
 			c.Missing("client stream types with a RecvMsg that receives from a message channel (in-process and HTTP)")
 		}
+		// the probe sees every response: the HTTP reply reader hands over every frame, empty ones included
+		if httpReaderHandsOverEveryFrame(c) == 0 {
+			c.Fail("httpgrpc:reply-reader-loop", token.NoPos, "ANCHOR-MISSING: no loop in httpgrpc that reads size prefaces and hands message bytes to a channel")
+		}
 		c.EndRule()
 	}
 
@@ -298,6 +302,36 @@ func c08ClientType(c *core.Ctx, nt *types.Named, fam []*ssa.Function) {
 		return
 	}
 	c.Ok(tk+":flag", fpos, "single-response flag is field %q, initialised from the ServerStreams field of NewStream's *grpc.StreamDesc", flag)
+	// ... of the CALLER's descriptor (the one the generated stub passes: it says what the caller's code expects to
+	// receive), not of a descriptor looked up on the serving side
+	{
+		okCaller, n := true, 0
+		for _, fn := range p.LibFuncs(pkgSuffixOf(nt)) {
+			core.Instrs(fn, func(in ssa.Instruction) {
+				st, ok := in.(*ssa.Store)
+				if !ok {
+					return
+				}
+				base, f, isF := core.FieldOf(st.Addr)
+				if !isF || f != flag || core.NamedOf(base.Type()) != tn {
+					return
+				}
+				for _, o := range core.Origins(st.Val) {
+					db, df, isD := core.FieldOf(o)
+					if !isD || df != "ServerStreams" {
+						continue
+					}
+					n++
+					if !core.AllOrigins(db, func(b ssa.Value) bool { _, isPar := core.ResolveFree(b).(*ssa.Parameter); return isPar }) {
+						okCaller = false
+					}
+				}
+			})
+		}
+		if n > 0 {
+			c.Check(okCaller, tk+":flag-from-caller-descriptor", fpos, "the descriptor read is the entry point's own *grpc.StreamDesc parameter", "the single-response flag is read from a descriptor that is not the caller's (e.g. the one registered on the serving side): when the two disagree (generic/proxy registrations) the caller's single-response stub gets no exactly-one-response check")
+		}
+	}
 	if wrong, _ := findFlagField(p, nt, "ClientStreams"); wrong == flag {
 		c.Fail(tk+":flag-source", fpos, "flag field %q is (also) fed from desc.ClientStreams", flag)
 	}
@@ -952,6 +986,18 @@ func singleResponseProbes(c *core.Ctx, pkgs ...string) int {
 		n++
 		c08ClientType(c, nt, fam)
 	}
+	if len(pkgs) == 0 || func() bool {
+		for _, pk := range pkgs {
+			if pk == "httpgrpc" {
+				return true
+			}
+		}
+		return false
+	}() {
+		if httpReaderHandsOverEveryFrame(c) == 0 {
+			c.Fail("httpgrpc:reply-reader-loop", token.NoPos, "ANCHOR-MISSING: no loop in httpgrpc that reads size prefaces and hands message bytes to a channel")
+		}
+	}
 	return n
 }
 
@@ -989,4 +1035,60 @@ func accessPath(v ssa.Value) string {
 		break
 	}
 	return core.ValName(v)
+}
+
+// httpReaderHandsOverEveryFrame: in the HTTP reply reader (a loop that reads a
+// size preface and sends the message bytes on the stream's message channel),
+// no path leads from one preface read to the next without the send — an empty
+// message is a message. Returns the number of reader loops examined. (A
+// necessary condition of C08: the second-response check sees every response;
+// of C01: nothing is dropped; of C07: the decoder yields exactly the frames.)
+func httpReaderHandsOverEveryFrame(c *core.Ctx) int {
+	p := c.P
+	readers := prefaceReaders(p)
+	n := 0
+	for _, fn := range p.LibFuncs("httpgrpc") {
+		var sends []ssa.Instruction
+		core.Instrs(fn, func(in ssa.Instruction) {
+			switch x := in.(type) {
+			case *ssa.Send:
+				if core.TypeStr(x.X.Type()) == "[]byte" {
+					sends = append(sends, x)
+				}
+			case *ssa.Select:
+				for _, st := range x.States {
+					if st.Send != nil && core.TypeStr(st.Send.Type()) == "[]byte" {
+						sends = append(sends, x)
+					}
+				}
+			}
+		})
+		if len(sends) == 0 {
+			continue
+		}
+		for _, pr := range core.CallsIn(fn, func(_ *ssa.Call, ci core.CallInfo) bool {
+			for _, r := range readers {
+				if ci.Static == r {
+					return true
+				}
+			}
+			return false
+		}) {
+			if !core.Reachable(core.After(pr), pr) {
+				continue // not in a loop
+			}
+			n++
+			isSend := func(in ssa.Instruction) bool {
+				for _, sd := range sends {
+					if in == sd {
+						return true
+					}
+				}
+				return false
+			}
+			again := core.Walk(core.After(pr), isSend, nil)[pr]
+			c.Check(!again, core.FuncName(fn)+":reader-loop:every-frame-handed-over", pr.Pos(), "every path from one size-preface read to the next passes the hand-over to the message channel", "the reply reader can go from one size preface to the next without handing the message over (e.g. a shortcut for zero-length frames): an empty message is dropped, so a second (empty) response of a single-response method goes unnoticed and message counts disagree")
+		}
+	}
+	return n
 }
